@@ -11,10 +11,15 @@
     Runtime, not modelled (checked by fault enumeration on the implementation):
     that database/sql transactions give the atomicity the model assumes
     (rollback discards, commit publishes), HTTP / multipart framing, real
-    thread interleavings; contract assumed of fs.Writer: a failed Close stores
-    nothing. *)
-From Perf Require Import Base.Bytes Model.Words Model.Query Model.StoreFmt Model.Upload Model.Ids
-     Model.IdsHist Proofs.Upload Proofs.Ids Proofs.IdsHist.
+    thread interleavings. A failing Close of a file-store writer: the model
+    follows the REPAIRED server (hooks/fix_c20_close_error_leaves_file.diff: on a
+    Close error indexFile calls CloseWithError, as on every other error path);
+    nothing is assumed of fs.Writer beyond its documented CloseWithError
+    ("cancels the writing of the file, removing any partially written data").
+    The server as it is leaves the file in the store (storage/fs/local: Close is
+    os.File.Close) - the fault enumeration reports that as a violation. *)
+From Perf Require Import Base.Bytes Model.Words Model.Query Model.StoreFmt Model.Upload Model.UploadSpec Model.Ids
+     Model.IdsHist Proofs.Upload Proofs.UploadSpec Proofs.Ids Proofs.IdsHist.
 
 Section C20.
 Variables result rec : Type.
@@ -79,16 +84,33 @@ Theorem C20_broken_request_rejected : forall o st rq,
   rq_end rq = EndBroken -> snd (run o st rq) = UErr.
 Proof. exact (broken_request_rejected result rec parse_file coalesce rejects alloc). Qed.
 
-(** what a failed upload leaves in the file store: nothing, or exactly the
-    completely written and closed files of the parts before the point of
-    failure — never the file being written when the fault happened *)
+(** "the file being written when the failure happened is removed". The
+    FAILING PART of a request under a fault oracle is defined declaratively
+    (Proofs/UploadSpec.v, [lead]): the first part of which some file-store
+    operation (create, a header or body write, close) fails, or during which a
+    forced flush is refused, or which is cut, has no benchmark line or is an
+    unexpected field. A failed upload leaves the store as it was, or - an upload
+    [id] was begun - adds exactly the files (path, header ++ body: [spec_files])
+    of the parts BEFORE the failing part [k]; every added path has a part index
+    below [k], so the file of the failing part (also a completely written one
+    whose Close failed) and of any later part is not in the store; and if the
+    part loop failed, [k] is a part of the request. *)
 Theorem C20_failed_file_removed : forall o st rq st',
   run o st rq = (st', UErr) ->
   us_fs st' = us_fs st
-  \/ exists id k, k <= length (rq_items rq)
-       /\ us_fs st' = us_fs st ++ exp_files id (rq_user rq) (rq_time rq) (firstn k (rq_items rq)) 0
+  \/ exists id,
+       let k := lead result parse_file o id (rq_user rq) (rq_time rq) (rq_items rq) 0 0 in
+       us_fs st' = us_fs st ++ spec_files id (rq_user rq) (rq_time rq) (firstn k (rq_items rq)) 0
+       /\ (forall p c, In (p, c) (spec_files id (rq_user rq) (rq_time rq) (firstn k (rq_items rq)) 0) ->
+             exists j, (j < N.of_nat k)%N /\ p = file_path id j)
        /\ (loop_failed result rec parse_file alloc o st rq = true -> k < length (rq_items rq)).
-Proof. exact (failed_file_removed result rec parse_file coalesce rejects alloc alloc_fresh). Qed.
+Proof. exact (failed_upload_leaves_parts_before_failing result rec parse_file coalesce rejects alloc alloc_fresh). Qed.
+
+(** a successful upload adds exactly the declared files (the judge's [spec_files]) *)
+Theorem C20_success_stores_declared_files : forall o st rq st' id fids,
+  run o st rq = (st', UOk id fids) ->
+  us_fs st' = us_fs st ++ spec_files id (rq_user rq) (rq_time rq) (rq_items rq) 0.
+Proof. exact (success_stores_spec_files result rec parse_file coalesce rejects alloc alloc_fresh). Qed.
 
 (** whatever happens to an upload, IDs, records and files of earlier uploads stay *)
 Theorem C20_earlier_uploads_untouched : forall o st rq,
@@ -131,6 +153,7 @@ Print Assumptions C20_upload_success_means_no_fault.
 Print Assumptions C20_midflush_fault_fails_upload.
 Print Assumptions C20_broken_request_rejected.
 Print Assumptions C20_failed_file_removed.
+Print Assumptions C20_success_stores_declared_files.
 Print Assumptions C20_earlier_uploads_untouched.
 Print Assumptions C20_history_preserves_earlier.
 Print Assumptions C20_ids_never_reused_upload.
@@ -261,3 +284,18 @@ Example C20_example_midflush :
                    (mkOracle false (fun _ => false) (fun i => (i =? 2)%N) false false) (mkUs [] [] []) rq
                  = (st', UErr) /\ us_recs st' = [] /\ length (us_fs st') = 1).
 Proof. split; [reflexivity|]. eexists; repeat split; vm_compute; reflexivity. Qed.
+
+(** non-vacuity of the failing part: two files, the Close of the SECOND one
+    (file-store operation 15: 8 operations for part 0, then create, 5 header
+    writes, 1 body write) fails; one operation further nothing fails: the failing part is part 1, the upload fails,
+    the first file stays, the completely written second file is gone *)
+Example C20_example_close_fault :
+  let body := bs "BenchmarkA 1 2 ns/op" ++ [c_lf] in
+  let rq := mkReq [IFile (bs "a.txt") body 1 false; IFile (bs "b.txt") body 1 false; ICommit] EndClosed [] (bs "t") in
+  let o := mkOracle false (fun n => Nat.eqb n 15) (fun _ => false) false false in
+  lead StoreFmt.result read_with o (bs "20260930.1") [] (bs "t") (rq_items rq) 0 0 = 1
+  /\ lead StoreFmt.result read_with (mkOracle false (fun n => Nat.eqb n 16) (fun _ => false) false false)
+          (bs "20260930.1") [] (bs "t") (rq_items rq) 0 0 = 3
+  /\ (exists st', run_upload_sf (Some (bs "20260930.1")) o (mkUs [] [] []) rq = (st', UErr)
+                  /\ us_recs st' = [] /\ map fst (us_fs st') = [bs "uploads/20260930.1/0.txt"]).
+Proof. split; [vm_compute; reflexivity|]. split; [vm_compute; reflexivity|]. eexists; repeat split; vm_compute; reflexivity. Qed.
